@@ -29,7 +29,7 @@ REPLS = ["far_reaching", "larger_shared", "larger_disjoint", "equal_partial", "e
 
 def cases(tier, seed):
     rng = np.random.default_rng([5, seed])
-    n = 600 if tier == "quick" else 20000
+    n = 600 if tier == "quick" else 80000
     out = []
     for j in range(n):
         out.append({"s": int(rng.integers(1 << 30)), "cell": planted.CELL_CLASSES[j % len(planted.CELL_CLASSES)], "pattern": patterns.CLASSES[(j // 2) % len(patterns.CLASSES)],
@@ -218,14 +218,14 @@ def run_case(case, ctx):
 
 def requirements(stats, tier):
     need = []
-    if stats.get("placements_judged") < (500 if tier == "quick" else 15000):
+    if stats.get("placements_judged") < (500 if tier == "quick" else 60000):
         need.append("too few placements judged: %d" % stats.get("placements_judged"))
-    if stats.get("inserted_atoms_wrapped_by_lattice_vector") < (150 if tier == "quick" else 5000):
+    if stats.get("inserted_atoms_wrapped_by_lattice_vector") < (150 if tier == "quick" else 20000):
         need.append("too few wrapped insertions: %d" % stats.get("inserted_atoms_wrapped_by_lattice_vector"))
     if stats.nseen("cell_class") < len(planted.CELL_CLASSES) or stats.nseen("pattern_class") < len(patterns.CLASSES):
         need.append("not all cell / pattern classes observed")
     if stats.nseen("faces_crossed") < 4:
         need.append("copies straddling 0..3 faces not all observed")
-    if stats.get("joint_motion_relations_checked") < (40 if tier == "quick" else 1500):
+    if stats.get("joint_motion_relations_checked") < (40 if tier == "quick" else 6000):
         need.append("joint-motion relation checked only %d times" % stats.get("joint_motion_relations_checked"))
     return need
